@@ -318,7 +318,9 @@ Definition type_of_json (norm : str -> str) := fix type_of_json (j : jv) : res t
             | [] => mk_object norm attrs []
             | o :: more' =>
                 do opt <- strings_of_json o;
-                do t <- mk_object norm attrs opt;
+                (* an undeclared optional name is a decoding error (fix: commit 96b6b5c); the
+                   constructor itself still panics *)
+                do t <- match mk_object norm attrs opt with Panic => Err OtherError | r => r end;
                 match more' with [] => Ok t | _ => Err OtherError end
             end
         end
